@@ -335,7 +335,23 @@ def _train_op(rep: Report, plan: dict[str, Any], ref: R.RefKFAC,
                 rep.stats['callable_hp_evaluations'] += len(calls)
     D = by_rank[r0]['D']
     finite = all(bool(torch.isfinite(d).all()) for d in D.values())
+    # a training run that has numerically diverged (float32 activations whose
+    # squares overflow while the float64 reference does not) says nothing
+    # about the properties: that step and everything after it in the
+    # incarnation is vacuous
+    for rec in by_rank.values():
+        for c in rec.get('caps', {}).values():
+            for t in c['a'] + c['g']:
+                if not bool(torch.isfinite(t).all()) or float(
+                        t.abs().max()) > 1e6:
+                    finite = False
+    for d in D.values():
+        if bool(torch.isfinite(d).all()) and float(d.abs().max()) > 1e6:
+            finite = False
+    if getattr(ref, 'diverged', False):
+        finite = False
     if not finite:
+        ref.diverged = True
         rep.stats['vacuous_nonfinite_input'] += 1
     factor_step = ref.is_factor_step()
     inv_step = ref.is_inv_step()
@@ -402,6 +418,8 @@ def _train_op(rep: Report, plan: dict[str, Any], ref: R.RefKFAC,
         rep.stats['decompositions'] += dec
         # ---- factors (C04) and the C01 solve with the layer's own factors
         facs = rec.get('factors')
+        if facs is not None and not finite:
+            facs = None
         if facs is not None:
             _factor_checks(rep, plan, ref, facs, r, infos, eps_f,
                            want_fdtype, factor_step, prev_factors, key)
